@@ -13,7 +13,7 @@ except ImportError:
     pass
 checks = []
 for pid in all_ids:
-    if pid not in PROPS: continue
+    if pid not in PROPS or PROPS[pid].get('claim') in ('dev', 'development stage'): continue
     c = PROPS[pid]
     checks.append(dict(
         property_id=pid,
@@ -38,7 +38,7 @@ m = dict(
                   kind_free_text="Rocq (Coq 8.16.1) development: executable Gallina model of iwe + theorems per property; Rust harness runs the real code on generated inputs and writes observations as Gallina case files; coqc evaluates model and property predicates on them")],
     checks=checks,
     notes="See DESIGN.md. Known findings: known_findings.txt. Seeded changes used to test the checks: seeded/.",
-    not_applicable=[dict(property_id=p, reason=NOT_YET.get(p, "not claimed yet: the model for this property is not built; nothing is asserted about it")) for p in all_ids if p not in PROPS],
+    not_applicable=[dict(property_id=p, reason=NOT_YET.get(p, "not claimed yet: the model for this property is not built; nothing is asserted about it")) for p in all_ids if p not in [c['property_id'] for c in checks]],
 )
 json.dump(m, open(os.path.join(ROOT, "MANIFEST.json"), "w"), indent=1)
 print("claimed:", [c["property_id"] for c in checks])
